@@ -4,6 +4,7 @@ import MockeryModel.Config.Resolve
 import MockeryLemmas.Pipeline
 import MockeryLemmas.Select
 import MockeryLemmas.Resolve
+import MockeryLemmas.Plan
 /-!
 # C09 — Invalid or unsatisfiable input fails loudly: non-zero exit, never a crash
 
@@ -99,5 +100,53 @@ theorem detection_before_write :
 /-- non-vacuity -/
 example : (run ⟨false, [⟨"a", false, true, false, true, true, true, "A"⟩], false⟩ (fun _ => .absent)).2 = false := by decide
 example : (run ⟨false, [⟨"a", false, true, true, true, true, true, "A"⟩], false⟩ (fun _ => .absent)).2 = true := by decide
+
+/-! ## the whole run -/
+
+/-- **end to end, success**: if a run exits 0 then no listed interface is missing and, for every selected
+(package, interface, configs entry), the output file it resolves to passed every stage and holds the
+complete rendered content of its collection -/
+theorem end_to_end_exit_zero_writes_every_selected_mock (w : World) (t : Tree) (fs : FS)
+    (hok : (endToEnd w t fs).2 = true) :
+    ∃ pkgs mocks, initializeFull w.ft w.matcher w.subPkgs t = .ok pkgs ∧ selected w.matcher pkgs w.srcs = .ok mocks ∧
+      (missing pkgs w.srcs).isEmpty = true ∧
+      ∀ m ∈ mocks, ∃ pm c, planMock w.configFile w.cwd (w.srcOf m.pkg m.iface) m = .ok pm ∧ pm ∈ c.mocks ∧ c.path = pm.path ∧
+        (w.render c).stagesOk = true ∧ (endToEnd w t fs).1 pm.path = .file (w.render c).content := by
+  unfold endToEnd at hok ⊢
+  cases hi : initializeFull w.ft w.matcher w.subPkgs t with
+  | error e => simp [hi] at hok
+  | ok pkgs =>
+    cases hs : selected w.matcher pkgs w.srcs with
+    | error e => simp [hi, hs] at hok
+    | ok mocks =>
+      cases hp : planAll w.configFile w.cwd w.srcOf mocks with
+      | error e => simp [hi, hs, hp] at hok
+      | ok planned =>
+        cases hg : group planned with
+        | error e => simp [hi, hs, hp, hg] at hok
+        | ok cs =>
+          simp only [hi, hs, hp, hg] at hok ⊢
+          have inv := groupFrom_inv planned [] cs [] hg ⟨by simp, by simp, by simp, by simp⟩
+          simp only [List.nil_append] at inv
+          have hnd : ((cs.map (fun c => ({ w.render c with path := c.path } : FileJob))).map (·.path)).Nodup := by
+            have : (cs.map (fun c => ({ w.render c with path := c.path } : FileJob))).map (·.path) = cs.map (·.path) := by
+              simp [List.map_map, Function.comp]
+            rw [this]; exact inv.nodup
+          obtain ⟨_, hmiss, hjobs⟩ := exit_zero_complete _ fs hnd hok
+          refine ⟨pkgs, mocks, rfl, hs, by simpa using hmiss, ?_⟩
+          intro m hm
+          obtain ⟨pm, hpm, hplan⟩ := planAll_complete _ _ _ mocks planned hp m hm
+          obtain ⟨c, hc, hcp, hmc⟩ := inv.complete pm hpm
+          have hj := hjobs ({ w.render c with path := c.path } : FileJob) (List.mem_map.2 ⟨c, hc, rfl⟩)
+          refine ⟨pm, c, hplan, hmc, hcp, ?_, ?_⟩
+          · have h1 : (w.render c).templateOk = true := hj.1
+            have h2 : (w.render c).validateOk = true := hj.2.1
+            have h3 : (w.render c).executeOk = true := hj.2.2.1
+            have h4 : (w.render c).formatOk = true := hj.2.2.2.1
+            simp [FileJob.stagesOk, h1, h2, h3, h4]
+          · have h5 := hj.2.2.2.2
+            rw [← hcp]
+            exact h5
+
 
 end Mockery.C09
